@@ -13,12 +13,18 @@ import z3
 from .sym import OutOfReach, Raised, SBool, SInt, SReal, cur, is_reallike
 
 
+def _is_cscal(x):
+    return any(c.__name__ == "CScal" for c in type(x).__mro__)
+
+
 def _key(x):
     """Canonical hashable key of an index / scalar."""
     if isinstance(x, TArr):
         return x.node
     if isinstance(x, (SInt, SReal, SBool)):
         return ("z3", str(x.z))
+    if _is_cscal(x):
+        return ("cx", _key(x.re), _key(x.im))
     if isinstance(x, slice):
         return ("slice", _key(x.start), _key(x.stop), _key(x.step))
     if isinstance(x, tuple):
@@ -67,14 +73,44 @@ class TArr:
         return TArr(("flat", self.node), (self.size,))
 
     def has_attr(self, name):
-        return name in ("shape", "ndim", "T", "size", "copy", "flatten", "dtype")
+        return name in ("shape", "ndim", "T", "size", "copy", "flatten", "dtype", "reshape")
+
+    def reshape(self, *shape):
+        """Layout only: recorded as a node so that provenance can be compared modulo layout (see strip)."""
+        if len(shape) == 1 and isinstance(shape[0], tuple):
+            shape = shape[0]
+        return TArr(("reshape", self.node, _key(tuple(shape))), tuple(shape))
+
+    def __matmul__(self, o):
+        if not isinstance(o, TArr):
+            return NotImplemented
+        shp = (self.shape[0],) if len(o.shape) == 1 else (self.shape[0], o.shape[1])
+        return TArr(("matmul", self.node, o.node), shp)
+
+    # numpy functions reached through the library's dispatch
+    def _np_stack(self, args, axis=0):
+        parts = list(args[0])
+        if not all(isinstance(p, TArr) for p in parts):
+            raise OutOfReach("np.stack of mixed values")
+        shp = tuple(parts[0].shape) + (len(parts),) if axis == -1 else (len(parts),) + tuple(parts[0].shape)
+        return TArr(("stack", tuple(p.node for p in parts), axis), shp)
+
+    def _np_norm(self, args, ord=None):
+        if ord not in (None, 2, "fro"):
+            raise OutOfReach("norm order of a term array")
+        return norm_term([self])
+
+    def _q_as_quat_array(self, args):
+        if not self.shape or not (isinstance(self.shape[-1], int) and self.shape[-1] == 4):
+            raise Raised("ValueError", "as_quat_array needs a trailing axis of length 4")
+        return TArr(("asquat", self.node), self.shape[:-1])
 
     def _bin(self, op, o, swap=False):
         if isinstance(o, TArr):
             a, b = (o, self) if swap else (self, o)
             shp = a.shape if len(a.shape) >= len(b.shape) else b.shape
             return TArr((op, a.node, b.node), shp)
-        if is_reallike(o) or isinstance(o, (int, Fraction)):
+        if is_reallike(o) or isinstance(o, (int, Fraction)) or _is_cscal(o):
             k = _key(o)
             return TArr((op, k, self.node) if swap else (op, self.node, k), self.shape)
         return NotImplemented
@@ -157,9 +193,86 @@ def np_vstack(parts):
     return out
 
 
+def strip(node):
+    """Provenance modulo layout: reshape / flatten wrappers removed (they do not change the multiset of entries
+    nor their order for the vectors they are applied to)."""
+    if isinstance(node, tuple):
+        if node and node[0] in ("reshape", "flat") and len(node) >= 2:
+            return strip(node[1])
+        return tuple(strip(x) for x in node)
+    return node
+
+
+def _fallthrough(orig, pred, mine):
+    def f(*a, **k):
+        if pred(a):
+            return mine(*a, **k)
+        if orig is None:
+            raise OutOfReach("library function not modelled for these arguments")
+        return orig(*a, **k)
+    return f
+
+
+def _first_is_tarr(a):
+    return bool(a) and (isinstance(a[0], TArr) or (isinstance(a[0], (list, tuple)) and a[0] and isinstance(a[0][0], TArr)))
+
+
+def np_real(a):
+    return TArr(("real", a.node), a.shape)
+
+
+def np_imag(a):
+    return TArr(("imag", a.node), a.shape)
+
+
+def np_concatenate(parts, axis=0):
+    parts = list(parts)
+    n = 0
+    for p in parts:
+        n = n + p.shape[0]
+    return TArr(("concat",) + tuple(p.node for p in parts), (n,) + tuple(parts[0].shape[1:]))
+
+
+_NPC = None
+
+
+def np_complex(re, im):
+    """A numpy complex scalar produced by a kernel: dividing by it never raises (nan / inf instead; not modelled, A1), and
+    multiplying an array by it is the array's business."""
+    global _NPC
+    if _NPC is None:
+        from .idx import CScal
+
+        class NPCScal(CScal):
+            __slots__ = ()
+
+            def __mul__(self, o):
+                if isinstance(o, TArr):
+                    return NotImplemented
+                return CScal.__mul__(self, o)
+
+            __rmul__ = __mul__
+
+            def __truediv__(self, o):
+                if isinstance(o, NPCScal):
+                    d = NPFloat((o.re * o.re + o.im * o.im).z)
+                    n = CScal.__mul__(self, o.conjugate())
+                    return NPCScal(n.re / d, n.im / d)
+                return CScal.__truediv__(self, o)
+        _NPC = NPCScal
+    return _NPC(re, im)
+
+
+def np_vdot(a, b):
+    k = repr(("vdot", _key(a), _key(b)))
+    return np_complex(SReal(z3.Real("re" + k)), SReal(z3.Real("im" + k)))
+
+
 def install(lib):
     t = lib.np.table
-    t["zeros"], t["zeros_like"], t["column_stack"], t["vstack"] = np_zeros, np_zeros_like, np_column_stack, np_vstack
+    t["zeros"], t["column_stack"], t["vstack"] = np_zeros, np_column_stack, np_vstack
+    for name, mine in (("zeros_like", np_zeros_like), ("real", np_real), ("imag", np_imag), ("concatenate", np_concatenate), ("vdot", np_vdot)):
+        t[name] = _fallthrough(t.get(name), _first_is_tarr, mine)
     return lib
 
 
@@ -173,7 +286,7 @@ class NPFloat(SReal):
 
 def norm_term(comps):
     """normQsparse(x0..x3) as an uninterpreted non-negative real named by the argument terms."""
-    s = NPFloat(z3.Real("norm[" + repr(tuple(_key(c) for c in comps)) + "]"))
+    s = NPFloat(z3.Real("norm[" + repr(tuple(strip(_key(c)) for c in comps)) + "]"))
     cur().assume(s >= 0, base=True)
     return s
 
